@@ -247,13 +247,31 @@ func ClientError(err error) error { return adapterErrors.ClientError(err) }
 
 type recProvider struct {
 	kv map[string][]byte
+	// inside RunTransaction the provider behaves like a Badger transaction: it keeps a reference to the
+	// value slices it is given until the transaction commits ("users must not modify key and val until
+	// the end of the transaction")
+	inTxn   bool
+	pending map[string][]byte
 }
 
 func (p *recProvider) RunTransaction(ctx context.Context, fn transactor.TransactionFn) error {
-	return fn(ctx)
+	p.inTxn, p.pending = true, make(map[string][]byte)
+	err := fn(ctx)
+	p.inTxn = false
+	if err != nil {
+		return err
+	}
+	for k, v := range p.pending {
+		p.kv[k] = append([]byte(nil), v...)
+	}
+	return nil
 }
 func (p *recProvider) DB(context.Context) badger.QueryManager { return p }
 func (p *recProvider) Set(key []byte, val []byte) error {
+	if p.inTxn {
+		p.pending[string(key)] = val
+		return nil
+	}
 	p.kv[string(key)] = append([]byte(nil), val...)
 	return nil
 }
@@ -304,6 +322,19 @@ func NewRecordStore() *RecordStore {
 // Set encodes and stores one record through the real repository.
 func (s *RecordStore) Set(r Record) error {
 	return s.r.Set(context.Background(), model.File{Key: r.Key, TxId: r.TxId, ContentId: r.ContentId, Seq: sequence.Seq(r.Seq)})
+}
+
+// SetAll stores the records in one transaction of the repository, as a Commit does.
+func (s *RecordStore) SetAll(rs []Record) error {
+	return s.r.RunTransaction(context.Background(), func(ctx context.Context) error {
+		for _, r := range rs {
+			err := s.r.Set(ctx, model.File{Key: r.Key, TxId: r.TxId, ContentId: r.ContentId, Seq: sequence.Seq(r.Seq)})
+			if err != nil {
+				return err
+			}
+		}
+		return nil
+	})
 }
 
 // Raw returns the stored key-value pairs.
